@@ -41,6 +41,7 @@ RULE = (
     "of collect / trigger_and_read actions, final explicit collect or collect_while_completing(flush_period, complete "
     "delay)). Non-trivial: some stream received at least two non-empty collects, or a joint collect whose detectors "
     "reported different indices. Distinct = canonical JSON."
+    ' Also the same detectors collected into two declared streams, interleaved (per-stream seq_num tiling from 1, per-key index tiling from 0).'
 )
 ASSUMPTIONS = [
     "stream detectors publish [published, index) on collect_asset_docs(index) like ophyd-async's StandardDetector",
